@@ -248,9 +248,25 @@ theorem C06_wand_machine_sound {σ : Type} (cb : σ → Nat → Nat → σ × Na
     (hcb : Wand.MonoCb cb R) (B : Nat) (acts : List Wand.Action) (ps : List Wand.Postings)
     (s : σ) (θ : Nat) (hR : R s θ) (hasc : ∀ p, p ∈ ps → Wand.Asc p)
     (hb : ∀ p, p ∈ ps → ∀ x, x ∈ p → x.1 < B)
-    (hv : Wand.ValidRun cb B acts ps 0 (s, θ)) :
-    Wand.runMachine cb acts ps (s, θ) = Wand.exhRange cb (Wand.unionTotal ps) 0 B (s, θ) := by
-  have := Wand.runMachine_eq_exhaustive hcb B acts ps 0 s θ hR (Nat.zero_le _) hasc
+    (hv : Wand.ValidRun cb Wand.unionTotal B acts ps 0 (s, θ)) :
+    Wand.runMachine cb Wand.unionTotal acts ps (s, θ)
+      = Wand.exhRange cb (Wand.unionTotal ps) 0 B (s, θ) := by
+  have := Wand.runMachine_eq_exhaustive hcb Wand.unionTotal_laws B acts ps 0 s θ hR (Nat.zero_le _) hasc
+    (fun p hp x hx => ⟨Nat.zero_le _, hb p hp x hx⟩) hv
+  simpa using this
+
+/-- the same for a CONJUNCTION of term scorers (`block_wand_intersection`): a document scores the
+sum of its clauses if every scorer contains it and does not match otherwise; the leader's
+filtered candidates and the documents of a skipped window are `seek` moves over dead documents,
+a candidate all secondaries were sought to is an `eval`. -/
+theorem C06_wand_machine_sound_intersection {σ : Type} (cb : σ → Nat → Nat → σ × Nat)
+    (R : σ → Nat → Prop) (hcb : Wand.MonoCb cb R) (B : Nat) (acts : List Wand.Action)
+    (ps : List Wand.Postings) (s : σ) (θ : Nat) (hR : R s θ) (hasc : ∀ p, p ∈ ps → Wand.Asc p)
+    (hb : ∀ p, p ∈ ps → ∀ x, x ∈ p → x.1 < B)
+    (hv : Wand.ValidRun cb Wand.interTotal B acts ps 0 (s, θ)) :
+    Wand.runMachine cb Wand.interTotal acts ps (s, θ)
+      = Wand.exhRange cb (Wand.interTotal ps) 0 B (s, θ) := by
+  have := Wand.runMachine_eq_exhaustive hcb Wand.interTotal_laws B acts ps 0 s θ hR (Nat.zero_le _) hasc
     (fun p hp x hx => ⟨Nat.zero_le _, hb p hp x hx⟩) hv
   simpa using this
 
@@ -429,7 +445,7 @@ theorem recordCb_mono : Wand.MonoCb (fun (s : List Nat) d sc => (s ++ [d], sc)) 
 /-- two scorers; with threshold 4 document 1 (total 3) is dead: the first scorer may be moved
 past it; then document 2 (3 + 4 = 7) is scored by both, document 5 (total 2 < 7) is dead -/
 def exPs : List Wand.Postings := [[(1, 3), (2, 3)], [(2, 4), (5, 2)]]
-example : Wand.ValidRun (fun (s : List Nat) d sc => (s ++ [d], sc)) 6 [.seek 0 2, .eval 2] exPs 0 ([], 4) := by
+example : Wand.ValidRun (fun (s : List Nat) d sc => (s ++ [d], sc)) Wand.unionTotal 6 [.seek 0 2, .eval 2] exPs 0 ([], 4) := by
   simp only [Wand.ValidRun, exPs]
   refine ⟨?_, by decide, by decide, ?_, ?_⟩
   · intro p hp x hx hlt
@@ -457,8 +473,11 @@ example : Wand.ValidRun (fun (s : List Nat) d sc => (s ++ [d], sc)) 6 [.seek 0 2
         · simp only [mem_cons, not_mem_nil, or_false] at hx
           subst hx
           exact fun h => hd h.symm
-example : Wand.runMachine (fun (s : List Nat) d sc => (s ++ [d], sc)) [.seek 0 2, .eval 2] exPs ([], 4)
+example : Wand.runMachine (fun (s : List Nat) d sc => (s ++ [d], sc)) Wand.unionTotal [.seek 0 2, .eval 2] exPs ([], 4)
     = Wand.exhRange (fun (s : List Nat) d sc => (s ++ [d], sc)) (Wand.unionTotal exPs) 0 6 ([], 4) := by decide
+/-- conjunction: document 1 is only in the first list (no match), document 2 is in both -/
+example : Wand.runMachine (fun (s : List Nat) d sc => (s ++ [d], sc)) Wand.interTotal [.seek 0 2, .eval 2, .seek 1 6] exPs ([], 4)
+    = Wand.exhRange (fun (s : List Nat) d sc => (s ++ [d], sc)) (Wand.interTotal exPs) 0 6 ([], 4) := by decide
 def exTerms : List Wand.TermList := [⟨[(2, 3), (9, 1)], 3⟩, ⟨[(5, 4)], 4⟩, ⟨[(5, 2), (6, 2)], 2⟩]
 example : Wand.findPivot 5 exTerms 0 = some 5 ∧ Wand.totalScore exTerms 2 = 3 ∧ Wand.totalScore exTerms 5 = 6 := by
   decide
